@@ -238,9 +238,20 @@ func (fa *FA) calleeFacts(conds []Cond) []Fact {
 				continue
 			}
 			seen[call] = true
+			out = append(out, fa.calleeFactsOfCall(call)...)
+		}
+	}
+	return out
+}
+
+// calleeFactsOfCall: the success guarantees of one module call (to be used where its error result is nil).
+func (fa *FA) calleeFactsOfCall(call *ssa.Call) []Fact {
+	var out []Fact
+	{
+		{
 			g := staticCallee(&call.Call)
 			if g == nil || !fa.P.InModule(g) || g.Blocks == nil {
-				continue
+				return nil
 			}
 			for _, sf := range fa.P.retSummary(g) {
 				res := resultN(call, sf.result)
@@ -339,9 +350,18 @@ func (p *Prog) retSummary(g *ssa.Function) []retFact {
 		holds := func(goal func(l *Lin) *Lin) bool {
 			for _, r := range succ {
 				// the result as it stands (loop invariants and the edge-sensitive phi split see the path conditions)
+				// on a return that forwards another call's error, success means that call succeeded
+				var fwd []Fact
+				if errIdx >= 0 {
+					if ex, ok := r.Results[errIdx].(*ssa.Extract); ok {
+						if c, ok := ex.Tuple.(*ssa.Call); ok {
+							fwd = fa.calleeFactsOfCall(c)
+						}
+					}
+				}
 				{
 					gl := goal(fa.Lin(r.Results[i]))
-					facts := fa.FactsAt(r, gl)
+					facts := append(fa.FactsAt(r, gl), fwd...)
 					if Entails(facts, gl) || fa.entailsPhiSplit(r, facts, gl, linConst(0), 3) {
 						continue
 					}
@@ -925,4 +945,66 @@ func (fa *FA) entryFacts() []Fact {
 	}
 	fa.entry = out
 	return out
+}
+
+// EntailsOnEdges proves goal <= 0 at instruction `at` by case analysis over the ways control reaches its block:
+// either the facts valid at `at` on every path entail it, or it is entailed on every incoming CFG path (the branch
+// conditions along the path added; paths whose conditions contradict each other as boolean literals are infeasible),
+// up to depth blocks back. Short-circuit conditions such as `(a && x != 0) || (!a && x < 0)` need this: no single
+// dominating condition holds, but each feasible path carries one.
+func (fa *FA) EntailsOnEdges(at ssa.Instruction, goal *Lin, depth int) bool {
+	return fa.entailsOnEdgesAssuming(at, goal, depth)
+}
+
+// entailsOnEdgesAssuming: as EntailsOnEdges, with extra branch literals assumed (paths contradicting them are infeasible).
+func (fa *FA) entailsOnEdgesAssuming(at ssa.Instruction, goal *Lin, depth int, assume ...Cond) bool {
+	if Entails(fa.FactsAt(at, goal), goal) {
+		return true
+	}
+	contradictory := func(cs []Cond) bool {
+		seen := map[ssa.Value]bool{}
+		for _, c := range cs {
+			nc := normCond(c)
+			if t, ok := seen[nc.V]; ok && t != nc.Truth {
+				return true
+			}
+			seen[nc.V] = nc.Truth
+		}
+		return false
+	}
+	var pathOK func(b *ssa.BasicBlock, acc []Cond, d int) bool
+	pathOK = func(b *ssa.BasicBlock, acc []Cond, d int) bool {
+		if d > depth || len(b.Preds) == 0 {
+			return false
+		}
+		for _, pr := range b.Preds {
+			cs := append([]Cond{}, acc...)
+			if len(pr.Instrs) > 0 {
+				if ifi, ok := pr.Instrs[len(pr.Instrs)-1].(*ssa.If); ok && pr.Succs[0] != pr.Succs[1] {
+					for si := 0; si < 2; si++ {
+						if pr.Succs[si] == b {
+							cs = append(cs, normCond(Cond{ifi.Cond, si == 0}))
+						}
+					}
+				}
+			}
+			all := append(append([]Cond{}, cs...), condsAt(pr)...)
+			if contradictory(all) {
+				continue
+			}
+			var facts []Fact
+			for _, c := range all {
+				facts = append(facts, fa.condFacts(c)...)
+			}
+			facts = fa.closeFacts(facts, goal)
+			if Entails(facts, goal) {
+				continue
+			}
+			if !pathOK(pr, cs, d+1) {
+				return false
+			}
+		}
+		return true
+	}
+	return pathOK(at.Block(), append([]Cond{}, assume...), 0)
 }
